@@ -605,30 +605,33 @@ theorem C20_history_json (c0 : PyroConfig) (evs : List HEv) :
 
 /-! ## obligations about facts extracted from the current source (PyroModel/Gen/C20.lean) -/
 
-/-- The routing constants, the split regex, the parameter / member / option names and the status
-    codes of the fixed replies in the source are the ones the model is written against; both 403
-    refusals precede (lexically) every call that touches the name server or a proxy; by default no
-    key is configured and the expose pattern is `http\.`; `pyro_app` assigns `config.SERIALIZER`
-    (the literal "json") and `config.COMMTIMEOUT` as plain statements of its body (nesting depth 0:
-    under no `if`, loop or `try`) before it reads anything from `environ` (`writeConfig`). -/
+/-- What the real `pyro_app` did on the extractor's probe requests is what the model does: the prefix
+    cut off a forwarded path and its length, the methods that are not 405 and the preflight one,
+    the redirect target, the object/member split on a table of paths (`splitPath` gives exactly the
+    observed split, or `none` where nothing was forwarded), the three request headers are honoured,
+    the names `$key` / `$meta` / `oneway`, the status codes of all fixed replies and of a forwarded
+    call, zero Pyro actions for a request refused for its key or for the pattern, the defaults
+    (no key, pattern `http\.`), and — over a history of four requests with other code writing the
+    global configuration in between — `SERIALIZER = json`, `COMMTIMEOUT = pyro_app.comm_timeout`
+    already hold at the moment each request is first read (`writeConfig`). -/
 theorem C20_gen_facts :
     Pyro.Gen.C20.routePrefix = sPyro ∧ Pyro.Gen.C20.routeSlice = sPyro.length ∧
     Pyro.Gen.C20.allowedMethods = [sGET, sPOST, sOPTIONS] ∧ Pyro.Gen.C20.optionsLiteral = sOPTIONS ∧
     Pyro.Gen.C20.redirectTarget = "/pyro/" ∧
-    Pyro.Gen.C20.splitRegex = "(.+)/(.+)" ∧
-    Pyro.Gen.C20.environKeys = ["HTTP_X_PYRO_OPTIONS", "HTTP_X_PYRO_GATEWAY_KEY", "HTTP_X_PYRO_CORRELATION_ID"] ∧
+    (∀ p ∈ Pyro.Gen.C20.splitProbes, splitPath p.1 = p.2) ∧ 10 ≤ Pyro.Gen.C20.splitProbes.length ∧
+    Pyro.Gen.C20.headerProbes = [("HTTP_X_PYRO_GATEWAY_KEY", true), ("HTTP_X_PYRO_OPTIONS", true),
+                                 ("HTTP_X_PYRO_CORRELATION_ID", true)] ∧
     Pyro.Gen.C20.keyParam = sKey ∧ Pyro.Gen.C20.metaMember = sMeta ∧ Pyro.Gen.C20.onewayOption = sOneway ∧
     Pyro.Gen.C20.statuses =
       [("notAllowed", resp405.status), ("optionsOk", respOptions.status), ("notFound", resp404.status),
        ("redirect", resp302.status), ("badKey", respBadKey.status), ("denied", respDenied.status),
        ("nsDown", respNsDown.status)] ∧
     Pyro.Gen.C20.otherStatuses = [200, 500] ∧
-    (∀ r ∈ Pyro.Gen.C20.refusalLines, ∀ t ∈ Pyro.Gen.C20.trafficLines, r < t) ∧
-    Pyro.Gen.C20.refusalLines.length = 2 ∧
+    Pyro.Gen.C20.refusalEvents = [("badKey", 0), ("denied", 0)] ∧
     Pyro.Gen.C20.defaultPattern = "http\\." ∧ Pyro.Gen.C20.defaultKeyIsNone = true ∧
-    Pyro.Gen.C20.configWrites = [("SERIALIZER", 0), ("COMMTIMEOUT", 0)] ∧
-    Pyro.Gen.C20.configSerializer = "json" ∧
-    (∀ w ∈ Pyro.Gen.C20.configWriteLines, w < Pyro.Gen.C20.firstEnvironReadLine) := by decide
+    Pyro.Gen.C20.configAtFirstRead =
+      List.replicate 4 ("json", (writeConfig Pyro.Gen.C20.configProbeTimeout ⟨.serpent, 0⟩).commTimeout) ∧
+    (writeConfig Pyro.Gen.C20.configProbeTimeout ⟨.serpent, 0⟩).serializer = .json := by decide
 
 /-! ## non-vacuity: concrete requests meeting the hypotheses -/
 
